@@ -94,7 +94,7 @@ Definition msd (P Qs : list vec) : res Q :=
   if negb (Nat.eqb (List.length P) (List.length Qs)) then Err "ValueError"          (* NumPy shape mismatch *)
   else match P with
        | [] => Err "ZeroDivisionError"
-       | _ => Ok (Qred (fold_right Qplus 0%Q (map (fun pq => sqdev (fst pq) (snd pq)) (combine P Qs))
+       | _ => Ok (Qred (fold_right (fun a b => Qred (a + b)%Q) 0%Q (map (fun pq => sqdev (fst pq) (snd pq)) (combine P Qs))
                         / inject_Z (Z.of_nat (List.length P))))
        end.
 
